@@ -59,7 +59,7 @@ class RTForm(hform.Form):
         return False
 
 
-INI_PIECES = ['a', 'Jane Q. Public', '12 Main St', 'x = y', 'k: v', '[sec]', '#hash', ';semi', 'a # b', 'a ; b', '100%', '50%% off', '%(x)s', '%',
+INI_PIECES = ['Mu\u0308ller', '12\u00bd Elm St', 'She\ufb03eld', 'Acme\u2122', '\u2116 7', 'x\u00a0y', '\uff11\uff12', 'a', 'Jane Q. Public', '12 Main St', 'x = y', 'k: v', '[sec]', '#hash', ';semi', 'a # b', 'a ; b', '100%', '50%% off', '%(x)s', '%',
               '%%', 'é', '日本', '🙂', "O'Neil", '"q"', '(paren', 'back\\slash', '=', ':', '  spaced  out  ', 'tab\tinside', '']
 
 
